@@ -5,7 +5,7 @@ PROP, LEVEL, ENGINE = "C04", "other", "jxvc"
 DESIGN_REF = "DESIGN.md section 3 C04"
 TECHNIQUE = ("deductive, value-universal/shape-bounded: power-series mode of the jaxpr interpreter (dt symbolic through a marker, exp/expm by their series in sqrt(dt), "
              "exact Gaussian moments) on the real propagate(), _build_propagation_intermediates and _apply_trotprop, against exp(-dt(H-E)) written out on the Fock space")
-EXPLANATION = ("With EVERYTHING symbolic (walker, h0, h1 per spin, Cholesky matrices, the rdm1 of the mean-field shift, field values, a FREE force-bias vector, E_shift) and the "
+EXPLANATION = ("all-sizes (proof): prop.const.allsizes[...] - mf_shifts, h0_prop and the exponent of exp_h1 of the real _build_propagation_intermediates are the mean-field-subtracted forms for ALL norb and nchol (DESIGN 2.3b). With EVERYTHING symbolic (walker, h0, h1 per spin, Cholesky matrices, the rdm1 of the mean-field shift, field values, a FREE force-bias vector, E_shift) and the "
                "trial callees replaced by their contracts, the real propagate() gives: importance function = exp(-sqrt(dt) shift_term + fb_term + dt(E_shift+h0_prop)) O'/O; theta = "
                "phase of exp(-sqrt(dt) shift_term) O'/O; and the exact Gaussian average of (importance function x propagated walker / new overlap) equals exp(-dt (H - E_shift))|phi>/O "
                "in every Fock component at orders s^0..s^3 of s = sqrt(dt) - the first unmatched order is s^4 = dt^2, which is the algebraic content of 'up to the O(dt^2) error'. "
@@ -22,6 +22,8 @@ def tasks(tier):
     S = "contracts.series"
     t = [(S, "phaseless_step", dict(restricted=False, nchol=1)), (S, "phaseless_step", dict(restricted=False, nchol=2)),
          (S, "phaseless_step", dict(restricted=True, nchol=2)), (S, "c04_canary", {})]
+    # all sizes: mean-field shifts, h0_prop and the one-body exponent of the real _build_propagation_intermediates (tensor normal form, symbolic norb / nchol)
+    t += [("contracts.allsizes", "prop_intermediates", dict(restricted=True)), ("contracts.allsizes", "prop_intermediates", dict(restricted=False))]
     if tier == "thorough":
         t += [(S, "phaseless_step", dict(restricted=False, norb=3, nu=2, nd=1, nchol=1)), (S, "phaseless_step", dict(restricted=True, norb=3, nu=1, nd=1, nchol=2))]
     return t
